@@ -1,6 +1,6 @@
-use alloc::vec::Vec;
+use alloc::{vec, vec::Vec};
 use nom::bytes::streaming::take;
-use nom::combinator::{complete, map_parser};
+use nom::combinator::{complete, map, map_parser};
 use nom::error::{make_error, ErrorKind};
 use nom::multi::many1;
 use nom::{Err, IResult};
@@ -102,7 +102,7 @@ pub fn parse_tls_record_with_header<'i>(i:&'i [u8], hdr:&TlsRecordHeader ) -> IR
         TlsRecordType::ChangeCipherSpec => many1(complete(parse_tls_message_changecipherspec))(i),
         TlsRecordType::Alert            => many1(complete(parse_tls_message_alert))(i),
         TlsRecordType::Handshake        => many1(complete(parse_tls_message_handshake))(i),
-        TlsRecordType::ApplicationData  => many1(complete(parse_tls_message_applicationdata))(i),
+        TlsRecordType::ApplicationData  => map(parse_tls_message_applicationdata, |m| vec![m])(i),
         TlsRecordType::Heartbeat        => complete(|i| parse_tls_message_heartbeat(i, hdr.len))(i),
         _                               => Err(Err::Error(make_error(i, ErrorKind::Switch)))
     }
